@@ -186,8 +186,12 @@ Definition src_name (s : source) : string :=
 Definition build_compare_op (op : cmpop) (src : source) (e : entry) (h : hattrs)
   : result (list impl_ir) :=
   let k := KCmp op in
-  let g := src_generics src in
-  let this := this_ty_of (src_name src) g in
+  let this := this_ty_of (src_name src) (src_generics src) in
+  (* `Eq` re-uses generics and where-clause for a free fn: `Self` expanded *)
+  let g := match op with
+           | CEq => expand_self_generics this (src_generics src)
+           | _ => src_generics src
+           end in
   let w := wcb_new g in
   let '(w, ub) := entry_push_bounds_to_with e h k w in
   do (b, w) <-
